@@ -1,16 +1,16 @@
 #!/bin/bash
-# usage: confirm_seed.sh <ID> <A|B>
+# usage: confirm_seed.sh <ID> <A|B> [base-commit]   (round-2 seeds: <ID>r2, base 09365831)
 # Re-creates the scratch worktree the sub-agent used (same path, demos hard-code it), and confirms:
 # patch applies, builds, repository suite keeps 690 passed / same 3 failed, demo fails with the change and
 # passes without it. Writes /verif/seeded/<ID>-<X>/confirm.json. Removes the worktree afterwards.
-id=$1; x=$2
+id=$1; x=$2; base=${3:-41e2319d}
 src=/verif/seeded/_incoming/$id/$x
 dst=/verif/seeded/$id-$x
 wt=/tmp/seed/$id
 [ -d "$src" ] || { echo "no $src"; exit 2; }
 mkdir -p $dst && cp -r $src/* $dst/
 if [ -d $wt ]; then git -C /repo worktree remove --force $wt; fi
-git -C /repo worktree add --detach $wt 41e2319d >/dev/null 2>&1 || exit 2
+git -C /repo worktree add --detach $wt $base >/dev/null 2>&1 || exit 2
 mkdir -p $wt/target && cp -r /repo/target/debug $wt/target/debug
 rm -rf $wt/target/debug/build/bindgen-tests-*   # stale generated tests.rs with /repo paths
 mkdir -p $wt/SEED && cp -r $src $wt/SEED/$x
